@@ -52,6 +52,19 @@ extern "C" size_t __sanitizer_get_allocated_size(const volatile void *p);
 
 namespace {
 
+// hex for reporting: long strings are reported as #<length>.<adler32-style digest>
+string lhex(const string &v) {
+  if (v.size() <= 100) return vh::hex(v);
+  unsigned a = 1, b = 0;
+  for (size_t i = 0; i < v.size(); i++) {
+    a = (a + static_cast<uint8_t>(v[i])) % 65521;
+    b = (b + a) % 65521;
+  }
+  std::ostringstream o;
+  o << "#" << v.size() << "." << (b * 65536u + a);
+  return o.str();
+}
+
 struct Ctx {
   std::ostringstream done, svc;
   unsigned handler_runs[2];
@@ -84,7 +97,7 @@ class Service : public ola::rpc::TestService {
   Service() : async(false), nreq(0), per_client(false) {}
 
   void Note(const char *name, const EchoRequest *request) {
-    g_ctx->svc << "|V" << vh::hex(string(name)) << ":" << vh::hex(request->SerializePartialAsString());
+    g_ctx->svc << "|V" << vh::hex(string(name)) << ":" << lhex(request->SerializePartialAsString());
   }
   void Echo(RpcController *controller, const EchoRequest *request, EchoReply *response,
             CompletionCallback *done) {
@@ -107,7 +120,7 @@ class Service : public ola::rpc::TestService {
       pending[q] = p;
       return;
     }
-    controller->SetFailed("Error");
+    controller->SetFailed(request->data().empty() ? string("Error") : request->data());
     done->Run();
   }
   void Stream(RpcController *controller, const EchoRequest *request, ola::rpc::STREAMING_NO_RESPONSE*,
@@ -134,20 +147,47 @@ class Service : public ola::rpc::TestService {
   }
 };
 
+// A second service with a different descriptor (for SetService): three methods of OlaServerService.
+class OtherService : public ola::proto::OlaServerService {
+ public:
+  void GetPlugins(RpcController*, const ola::proto::PluginListRequest *request, ola::proto::PluginListReply*,
+                  CompletionCallback *done) {
+    g_ctx->svc << "|V" << vh::hex(string("GetPlugins")) << ":" << lhex(request->SerializePartialAsString());
+    done->Run();
+  }
+  void GetDmx(RpcController*, const ola::proto::UniverseRequest *request, ola::proto::DmxData *response,
+              CompletionCallback *done) {
+    g_ctx->svc << "|V" << vh::hex(string("GetDmx")) << ":" << lhex(request->SerializePartialAsString());
+    response->set_universe(1);
+    response->set_data("d");
+    done->Run();
+  }
+  void StreamDmxData(RpcController*, const ola::proto::DmxData *request, ola::proto::STREAMING_NO_RESPONSE*,
+                     CompletionCallback *done) {
+    g_ctx->svc << "|V" << vh::hex(string("StreamDmxData")) << ":" << lhex(request->SerializePartialAsString());
+    if (done) done->Run();
+  }
+};
+
 struct Call {
   RpcController controller;
   EchoReply reply;
   google::protobuf::Message *out;   // the reply object given to CallMethod (own, or one the caller reuses)
   unsigned k;
-  Call() : out(&reply), k(0) {}
+  Call **slot;                      // where the caller keeps this call (cleared when the call completes)
+  Call() : out(&reply), k(0), slot(NULL) {}
 };
 
 void OnDone(Call *c) {
   g_ctx->done << "|D" << c->k << ":";
   if (c->controller.Failed())
-    g_ctx->done << "F:" << vh::hex(c->controller.ErrorText());
+    g_ctx->done << "F:" << lhex(c->controller.ErrorText());
   else
-    g_ctx->done << "R:" << vh::hex(c->out->SerializePartialAsString());
+    g_ctx->done << "R:" << lhex(c->out->SerializePartialAsString());
+  // like OlaClientCore, the application frees the per-call controller (and reply) in its completion
+  // callback: the channel must not touch them afterwards
+  if (c->slot) *c->slot = NULL;
+  delete c;
 }
 
 void OnChannelCloseA(ola::rpc::RpcSession*) { g_ctx->handler_runs[0]++; }
@@ -180,13 +220,23 @@ struct Caller {
   ola::proto::DmxData shared_dmx;
   ola::proto::UIDListReply shared_uids;
   Caller() : ncalls(0) {
+    calls.reserve(8192);   // the slots handed to the calls must not move
     echo_request.set_data("x");
     dmx.set_universe(1);
     dmx.set_data("d");
     universe_request.set_universe(1);
   }
   ~Caller() { for (size_t i = 0; i < calls.size(); i++) delete calls[i]; }
-  bool Do(RpcChannel *channel, const string &code) {
+  // code: a letter, optionally followed by the length of the request's data ("e1005")
+  bool Do(RpcChannel *channel, const string &code_and_size) {
+    string code = code_and_size;
+    size_t digits = code.find_first_of("0123456789");
+    if (digits != string::npos) {
+      echo_request.set_data(string(vh::num(code.substr(digits)), 'x'));
+      code = code.substr(0, digits);
+    } else {
+      echo_request.set_data("x");
+    }
     const google::protobuf::ServiceDescriptor *ts = ola::rpc::TestService::descriptor();
     const google::protobuf::ServiceDescriptor *os = ola::proto::OlaServerService::descriptor();
     unsigned k = ncalls++;
@@ -201,6 +251,7 @@ struct Caller {
     Call *call = new Call();
     call->k = k;
     calls.push_back(call);
+    call->slot = &calls.back();
     if (code == "" || code == "e") {
       channel->CallMethod(ts->FindMethodByName("Echo"), &call->controller, &echo_request, &call->reply,
                           ola::NewSingleCallback(&OnDone, call));
@@ -325,6 +376,7 @@ string HandleParse(const vector<string> &toks) {
 struct Endpoint {
   ola::ExportMap export_map;
   Service service;
+  OtherService other_service;
   ola::io::UnixSocket sock;
   ola::io::UnixSocket *peer;
   int pfd, cfd;
@@ -371,6 +423,12 @@ struct Endpoint {
       channel->m_sequence.m_sequence_number = static_cast<uint32_t>(vh::num(rest));
       return true;
     }
+    if (c == 'v') {
+      // the application installs another service (or none) in mid-history
+      unsigned k = vh::num(rest);
+      channel->SetService(k == 0 ? NULL : k == 1 ? static_cast<ola::rpc::RpcService*>(&service)
+                                                 : static_cast<ola::rpc::RpcService*>(&other_service));
+    } else
     if (c == 'w') {
       // bytes arrive but the poller has not run yet
       vector<uint8_t> bytes = vh::unhex(rest);
@@ -400,7 +458,7 @@ struct Endpoint {
       if (!caller.Do(channel, rest)) return false;
     } else if (c == 'k') {
       service.Complete(vh::num(rest.substr(0, rest.size() - 1)), rest[rest.size() - 1] == 'F');
-    } else {
+    } else if (c != 'v') {
       return false;
     }
     *emit = true;
@@ -419,7 +477,7 @@ struct Endpoint {
         if (!m.ParseFromArray(pending_out.data() + 4, size)) {
           sent << "|Sunparsable";
         } else {
-          sent << "|S" << m.type() << ":" << m.id() << ":" << vh::hex(m.name()) << ":" << vh::hex(m.buffer());
+          sent << "|S" << m.type() << ":" << m.id() << ":" << vh::hex(m.name()) << ":" << lhex(m.buffer());
           if ((header >> 28) != 1) sent << "!version";
         }
         pending_out.erase(0, 4 + size);
@@ -531,7 +589,7 @@ string HandleServer(const vector<string> &toks, unsigned nclients, bool async) {
             if (po.size() < 4 + size) break;
             RpcMessage m;
             if (!m.ParseFromArray(po.data() + 4, size)) sent << "|Sunparsable";
-            else sent << "|S" << m.type() << ":" << m.id() << ":" << vh::hex(m.name()) << ":" << vh::hex(m.buffer());
+            else sent << "|S" << m.type() << ":" << m.id() << ":" << vh::hex(m.name()) << ":" << lhex(m.buffer());
             po.erase(0, 4 + size);
           }
         }
